@@ -38,8 +38,10 @@ def make_client_class(env, addr2id):
         def __init__(self, server, **kw):
             self.server = server
             self.sid = addr2id[server]
+            # like the real Client: with ignore_exc a failing READ is reported as a miss instead of raising
+            self.ignore_exc = bool(kw.get("ignore_exc", False))
 
-        def _do(self, key, result):
+        def _do(self, key, result, miss=NotImplemented):
             h = env.health[self.sid]
             kid = env.key_of(key)
             if h == "up":
@@ -59,10 +61,12 @@ def make_client_class(env, addr2id):
             env.raised[id(exc)] = env.xid
             env.keep.append(exc)
             env.events.append({"e": "contact", "s": self.sid, "k": kid, "ok": False, "os": h == "os", "x": env.xid})
+            if self.ignore_exc and miss is not NotImplemented:
+                return miss
             raise exc
 
         def get(self, key, default=None, **kw):
-            return self._do(key, b"v")
+            return self._do(key, b"v", miss=default)
 
         def set(self, key, value, *a, **kw):
             return self._do(key, True)
@@ -74,10 +78,10 @@ def make_client_class(env, addr2id):
             return self._do(key, 1)
 
         def get_many(self, keys, *a, **kw):
-            return self._do(keys[0], {k: b"v" for k in keys})
+            return self._do(keys[0], {k: b"v" for k in keys}, miss={})
 
         def gets_many(self, keys, *a, **kw):
-            return self._do(keys[0], {k: (b"v", b"1") for k in keys})
+            return self._do(keys[0], {k: (b"v", b"1") for k in keys}, miss={})
 
         def set_many(self, values, *a, **kw):
             return self._do(next(iter(values)), [])
@@ -164,20 +168,21 @@ def replay(hist, n, ra, rt, dt, ignore_exc, variant):
             out.append({"e": "call", "keys": ks, "op": op})
             del env.events[:]
             names_ = ["k%d-m%d" % (k, i) for i, k in enumerate(ks)]
+            res = None
             try:
                 if op == "set_many":
                     hc.set_many({n_: b"v" for n_ in names_})
                 elif op == "get_many":
-                    hc.get_many(names_)
+                    res = hc.get_many(names_)
                 else:
-                    hc.gets_many(names_)
+                    res = hc.gets_many(names_)
             except Exception as e:   # noqa
                 out += env.events
                 x = env.raised.get(id(e))
                 out.append({"e": "raise", "x": x if x is not None else ("all" if "All servers" in str(e) else "other:" + type(e).__name__)})
             else:
                 out += env.events
-                out.append({"e": "ret"})
+                out.append(ret_event(env, res))
         else:
             k = step[1]
             ncall += 1
@@ -185,13 +190,14 @@ def replay(hist, n, ra, rt, dt, ignore_exc, variant):
             op = ["get", "set", "get_many", "set_many", "delete", "incr"][(variant + ncall) % 6]
             out.append({"e": "call", "keys": [k], "op": op})
             del env.events[:]
+            res1 = None
             try:
                 if op == "get":
                     hc.get(key)
                 elif op == "set":
                     hc.set(key, b"v")
                 elif op == "get_many":
-                    hc.get_many([key, "k%d-y" % k])
+                    res1 = hc.get_many([key, "k%d-y" % k])
                 elif op == "set_many":
                     hc.set_many({key: b"v", "k%d-z" % k: b"w"})
                 elif op == "delete":
@@ -208,9 +214,19 @@ def replay(hist, n, ra, rt, dt, ignore_exc, variant):
                 out.append({"e": "raise", "x": x if x is not None else "other:" + type(e).__name__})
             else:
                 out += env.events
-                out.append({"e": "ret"})
+                out.append(ret_event(env, res1 if op == "get_many" else None))
     return {"h": {"n": n, "ra": ra, "rt": rt, "dt": dt, "ignore_exc": ignore_exc, "maxrej": 4}, "ev": out,
             "hist": hist, "variant": variant}
+
+
+def ret_event(env, res):
+    """a multi-key read also reports which keys it returned (as key ids); the dict is the caller's: it is written to"""
+    if not isinstance(res, dict):
+        return {"e": "ret"}
+    found = sorted({env.key_of(k) for k in res if isinstance(k, (str, bytes)) and str(k if isinstance(k, str) else k.decode())[:1] == "k"})
+    junk = [k for k in res if not (isinstance(k, (str, bytes)) and str(k if isinstance(k, str) else k.decode())[:1] == "k")]
+    res["caller-wrote-this"] = 1
+    return {"e": "ret", "found": found + ([0] if junk else [])}
 
 
 def random_hist(rnd, n, length):
